@@ -79,11 +79,12 @@ func genConcScenario(r *verifrt.Rand, i int) *concScenario {
 	sort.Strings(s.weeks)
 	s.N = 2 + r.Intn(3)
 	s.Rounds = 1 + r.Intn(3)
-	statuses := []int{200, 200, 200, 500, 503, 400, 404, 0, 501, 502, 504, 505, 507, 511, 521, 599, 401, 403, 413, 429, 499}
+	// (1000+status: that status arrives, then the connection breaks inside the response body)
+	statuses := []int{200, 200, 200, 500, 503, 400, 404, 0, 501, 502, 504, 505, 507, 511, 521, 599, 401, 403, 413, 429, 499, 1200, 1200, 1400, 1503}
 	if i%7 == 3 {
 		s.Foreign = verifrt.Pick(r, []string{"saved-", "copy of ", "x", "2-"})
 		// (a client error answered to one of the two files says nothing about the other: keep to success and server errors)
-		statuses = []int{200, 200, 500, 503, 0, 502, 599}
+		statuses = []int{200, 200, 500, 503, 0, 502, 599, 1200}
 	}
 	for j, n := 0, r.Intn(4); j < n; j++ {
 		s.Script = append(s.Script, statuses[r.Intn(len(statuses))])
@@ -147,7 +148,7 @@ func TestVerifUploadConc(t *testing.T) {
 	c07 := verifrt.NewResult("C07.conc")
 	c08 := verifrt.NewResult("C08.sched")
 	c07.Rule = "2-4 uploaders (virtual threads) run the real uploader.Run over one directory with 1-2 finished weeks under the token-passing scheduler (scheduling point at every fs/HTTP call and lock), 1-3 rounds, strategies park-at-k (all k) / PCT / sticky / random, with and without kills. Oracle: from the fs-event log no report file is created or replaced twice; every local.<week>.json equals the reference aggregate and never changes once it exists; counter files are removed only after a report for their week exists. distinct = (scenario, trace) hashes; non-trivial = trace switches uploaders at least twice"
-	c08.Rule = "same runs against a scripted local upload server answering each request 200, a 4xx (400/401/403/404/413/429/499), a 5xx (500-505/507/511/521/599) or dropping the connection, kills parking an uploader for ever after any fs/HTTP call (deferred cleanup never runs); in a seventh of the histories local/ also holds a saved copy of a week's report under another name ending in the week's date. Oracle over the server log and directory snapshots: per week at most one distinct acknowledged body, and it is the complete reference report; no request for a week arrives while upload/<week>.json exists; a week whose requests in a round were only 5xx/unanswered keeps local/<week>.json; a 4xx answer removes it without creating upload/<week>.json; without kills and with a server that ends up answering 200, every uploadable week is acknowledged exactly once within the rounds (+1 extra round allowed after a 5xx). distinct = histories"
+	c08.Rule = "same runs against a scripted local upload server answering each request 200, a 4xx (400/401/403/404/413/429/499), a 5xx (500-505/507/511/521/599) or dropping the connection (before any answer, or after the status line while the response body is being sent: that is an answer), kills parking an uploader for ever after any fs/HTTP call (deferred cleanup never runs); in a seventh of the histories local/ also holds a saved copy of a week's report under another name ending in the week's date. Oracle over the server log and directory snapshots: per week at most one distinct acknowledged body, and it is the complete reference report; no request for a week arrives while upload/<week>.json exists; a week whose requests in a round were only 5xx/unanswered keeps local/<week>.json; a 4xx answer removes it without creating upload/<week>.json; without kills and with a server that ends up answering 200, every uploadable week is acknowledged exactly once within the rounds (+1 extra round allowed after a 5xx). distinct = histories"
 	nb := 32
 	if verifrt.Thorough() {
 		nb = 128
@@ -194,7 +195,7 @@ func TestVerifUploadConc(t *testing.T) {
 		}
 	}
 	c07.Require("exclusive-create-lost", "report-existed-at-check", "strategy:park", "strategy:pct")
-	c08.Require("second-report-file-for-week", "lock-contention", "status:200", "status:4xx", "status:5xx", "status:dropped", "kill", "kill-between-ack-and-marker", "kill-holding-lock", "retry-after-5xx", "all-acked-once")
+	c08.Require("answer-with-broken-body", "second-report-file-for-week", "lock-contention", "status:200", "status:4xx", "status:5xx", "status:dropped", "kill", "kill-between-ack-and-marker", "kill-holding-lock", "retry-after-5xx", "all-acked-once")
 	for _, x := range []*verifrt.Result{c07, c08} {
 		if err := x.Write(); err != nil {
 			t.Fatal(err)
@@ -252,7 +253,10 @@ func runConcScenario(c07, c08 *verifrt.Result, base string, s *concScenario, rnd
 			st = s.Script[seq]
 		}
 		_, err := os.Stat(filepath.Join(td.dir.UploadDir(), week+".json"))
-		acks = append(acks, ackRec{Seq: seq, Week: week, Status: st, Round: round, MarkerExists: err == nil})
+		acks = append(acks, ackRec{Seq: seq, Week: week, Status: st % 1000, Round: round, MarkerExists: err == nil})
+		if st >= 1000 {
+			c08.Hit("answer-with-broken-body")
+		}
 		return st
 	}
 	c07.Eval()
